@@ -82,3 +82,34 @@ def api_data(st, rtype, with_id=True):
 def new_region(st, cls='RectangularRegion', oid='NEWREGION'):
     st.cls[oid] = cls
     return Obj(oid)
+
+
+def id_comparisons(p):
+    """[(key, decided values, raw, slot oid | None)] for every comparison on this path that involves the id of a stored
+    region.  `raw` means: the stored region's id attribute itself compared with == against an unprocessed value (no
+    str()/lower()/int() wrapping on either side) - the one relation all registry functions must share, or else "unique
+    under the guard's relation" and "selected by the replace/delete relation" drift apart."""
+    out = []
+    for k, v in p.st.dom.items():
+        if not (isinstance(k, tuple) and len(k) == 3 and k[0] in ('eq', 'is', 'cmp', 'in')):
+            if isinstance(k, tuple) and k and k[0] in ('eq', 'is', 'cmp', 'in') and 'regions[' in repr(k) and '.id' in repr(k):
+                out.append((k, v, False, None))
+            continue
+        r = repr(k)
+        if 'regions[' not in r or '.id' not in r:
+            continue
+        slot = None
+        raw = k[0] == 'eq'
+        for side in (k[1], k[2]):
+            if isinstance(side, tuple) and len(side) == 2 and side[0] == 'opaque' and isinstance(side[1], str) \
+                    and side[1].endswith('.id') and side[1][:-3] in p.st.cls and side[1].startswith('regions['):
+                slot = side[1][:-3]
+            elif isinstance(side, tuple) and len(side) == 2 and side[0] in ('opaque', 'sstr') and isinstance(side[1], str) \
+                    and '(' not in side[1].replace('range(0,len(regions))', '').replace('len(regions)', ''):
+                pass
+            else:
+                raw = False
+        if slot is None:
+            raw = False
+        out.append((k, v, raw, slot))
+    return out
